@@ -1,4 +1,5 @@
 import XmpProofs.Api
+import XmpProofs.ApiReadback
 /-!
 # C05 — the public API obeys its documented state machine
 
@@ -115,51 +116,7 @@ example : (Spec.cell State.init.toObs .endPlayer {}).stateErr = true := by decid
 /-- **C05_state.**  Only load, release, start, end and context re-creation change the player state, and only
     along the documented edges: load → LOADED (UNLOADED on failure), release → UNLOADED, start → PLAYING
     (a failing start of a playing context ends it: LOADED), end: PLAYING → LOADED. -/
-theorem setPlayer_st (s : State) (parm val : Int) : (setPlayer s parm val).state.st = s.st := by
-  by_cases h0 : parm = 0
-  · subst h0; simp [setPlayer]; repeat' split
-    all_goals rfl
-  by_cases h1 : parm = 1
-  · subst h1; simp [setPlayer]; repeat' split
-    all_goals rfl
-  by_cases h2 : parm = 2
-  · subst h2; simp [setPlayer]; repeat' split
-    all_goals rfl
-  by_cases h3 : parm = 3
-  · subst h3; simp [setPlayer]; repeat' split
-    all_goals rfl
-  by_cases h4 : parm = 4
-  · subst h4; simp [setPlayer]; repeat' split
-    all_goals rfl
-  by_cases h5 : parm = 5
-  · subst h5; simp [setPlayer]; repeat' split
-    all_goals rfl
-  by_cases h6 : parm = 6
-  · subst h6; simp [setPlayer]; repeat' split
-    all_goals rfl
-  by_cases h7 : parm = 7
-  · subst h7; simp [setPlayer]; repeat' split
-    all_goals rfl
-  by_cases h8 : parm = 8
-  · subst h8; simp [setPlayer]; repeat' split
-    all_goals rfl
-  by_cases h9 : parm = 9
-  · subst h9; simp [setPlayer]; repeat' split
-    all_goals rfl
-  by_cases h10 : parm = 10
-  · subst h10; simp [setPlayer]; repeat' split
-    all_goals rfl
-  by_cases h11 : parm = 11
-  · subst h11; simp [setPlayer]; repeat' split
-    all_goals rfl
-  by_cases h12 : parm = 12
-  · subst h12; simp [setPlayer]; repeat' split
-    all_goals rfl
-  by_cases h13 : parm = 13
-  · subst h13; simp [setPlayer]; repeat' split
-    all_goals rfl
-  simp [setPlayer, *]; repeat' split
-  all_goals rfl
+theorem setPlayer_st (s : State) (parm val : Int) : (setPlayer s parm val).state.st = s.st := (setPlayer_frame s parm val).1
 
 theorem C05_state (s : State) (c : Call) (e : Env) (hi : ApiInv s) (he : EnvOk s c e = true)
     (hne : (step s c e).state.st ≠ s.st) :
@@ -176,5 +133,71 @@ theorem C05_state (s : State) (c : Call) (e : Env) (hi : ApiInv s) (he : EnvOk s
   cases c <;> simp only [] <;> revert hne <;>
     simp [step, startPlayer, loadModule, release, endPlayer, smixPlay, State.init, setPlayer_st, EnvOk, isOneOf] at he ⊢ <;>
     (repeat' split) <;> (try simp_all) <;> (try omega)
+
+/-! ## read-back: defaults established by xmp_start_player or the last successfully set value -/
+
+/-- the parameters `xmp_get_player` reads back (XMP_PLAYER_STATE and the read-only mixer type aside) -/
+def readable : List Int :=
+  [XMP_PLAYER_AMP, XMP_PLAYER_MIX, XMP_PLAYER_INTERP, XMP_PLAYER_DSP, XMP_PLAYER_FLAGS, XMP_PLAYER_CFLAGS, XMP_PLAYER_SMPCTL,
+   XMP_PLAYER_VOLUME, XMP_PLAYER_SMIX_VOLUME, XMP_PLAYER_DEFPAN, XMP_PLAYER_MODE, XMP_PLAYER_VOICES]
+
+/-- **C05_readback (parameters).**  After any history of calls on a fresh context, if the player is playing,
+    `xmp_get_player(p)` returns `expected p history`: the value established by context creation
+    (defpan, voices, flags, smpctl), by the last successful `xmp_start_player` (amp, mix, interp, dsp, volumes),
+    by the last successful load (module flags, personality), or the last value *successfully* set since.
+    Calls that were refused (error return) never show through. -/
+theorem C05_readback_param (h : List (Call × Env)) (he : ∀ x ∈ h, ∀ s', EnvOk s' x.1 x.2 = true)
+    (p : Int) (hp : p ∈ readable) (e : Env) (hplay : (exec State.init [] h).1.st = 2) :
+    expected p (exec State.init [] h).2 = some (step (exec State.init [] h).1 (.getPlayer p) e).ret := by
+  obtain ⟨_, hr, _⟩ := exec_rel h State.init [] C05_inv_init rel_init relCh_init he
+  generalize (exec State.init [] h).1 = s at *
+  generalize (exec State.init [] h).2 = evs at *
+  obtain ⟨h1, h2, h3, h4, h5, h6⟩ := hr
+  have h5' := h5 (by omega)
+  have h6' := h6 hplay
+  simp only [readable, List.mem_cons, List.not_mem_nil, or_false] at hp
+  rcases hp with rfl | rfl | rfl | rfl | rfl | rfl | rfl | rfl | rfl | rfl | rfl | rfl <;>
+    simp [step, getPlayer, hplay, *]
+
+/-- **C05_readback (mute).**  `xmp_channel_mute(chn, -1)` returns the module's channel flag as of the last
+    successful `xmp_start_player`, updated by every accepted set/invert since. -/
+theorem C05_readback_mute (h : List (Call × Env)) (he : ∀ x ∈ h, ∀ s', EnvOk s' x.1 x.2 = true)
+    (chn : Int) (h0 : 0 ≤ chn) (h64 : chn < 64) (e : Env) (hplay : (exec State.init [] h).1.st = 2) :
+    (step (exec State.init [] h).1 (.chanMute chn (-1)) e).ret = expMute chn (exec State.init [] h).2
+    ∧ (step (exec State.init [] h).1 (.chanMute chn (-1)) e).state = (exec State.init [] h).1 := by
+  obtain ⟨_, _, hc⟩ := exec_rel h State.init [] C05_inv_init rel_init relCh_init he
+  generalize (exec State.init [] h).1 = s at *
+  generalize (exec State.init [] h).2 = evs at *
+  have := (hc.2.2.2.2 hplay chn h0 h64).1
+  have hn : ¬ (chn < 0 ∨ 64 ≤ chn) := by omega
+  simp [step, hplay, hn, this]
+
+/-- **C05_readback (volume).**  `xmp_channel_vol(chn, -1)` returns 100 (the `xmp_start_player` default) or the
+    last accepted value 0..100. -/
+theorem C05_readback_vol (h : List (Call × Env)) (he : ∀ x ∈ h, ∀ s', EnvOk s' x.1 x.2 = true)
+    (chn : Int) (h0 : 0 ≤ chn) (h64 : chn < 64) (e : Env) (hplay : (exec State.init [] h).1.st = 2) :
+    (step (exec State.init [] h).1 (.chanVol chn (-1)) e).ret = expVol chn (exec State.init [] h).2
+    ∧ (step (exec State.init [] h).1 (.chanVol chn (-1)) e).state = (exec State.init [] h).1 := by
+  obtain ⟨_, _, hc⟩ := exec_rel h State.init [] C05_inv_init rel_init relCh_init he
+  generalize (exec State.init [] h).1 = s at *
+  generalize (exec State.init [] h).2 = evs at *
+  have := (hc.2.2.2.2 hplay chn h0 h64).2
+  have hn : ¬ (chn < 0 ∨ 64 ≤ chn) := by omega
+  simp [step, hplay, hn, this]
+
+/-- a history that reaches PLAYING with a refused and an accepted setting:
+    load, start, set volume 250 (refused), set volume 40, mute channel 1, set channel 2 volume 33 -/
+def demoHistory : List (Call × Env) :=
+  [(.load .path 1, { mchn := 4, mlen := 3, mins := 2 }), (.start 44100 0, {}),
+   (.setPlayer XMP_PLAYER_VOLUME 250, {}), (.setPlayer XMP_PLAYER_VOLUME 40, {}),
+   (.chanMute 1 1, {}), (.chanVol 2 33, {}), (.chanVol 2 101, {})]
+
+example : (exec State.init [] demoHistory).1.st = 2 := by decide
+example : ∀ x ∈ demoHistory, ∀ s', EnvOk s' x.1 x.2 = true := by
+  intro x hx s'; simp [demoHistory] at hx; rcases hx with rfl | rfl | rfl | rfl | rfl | rfl | rfl <;> simp [EnvOk, isOneOf, inRange]
+example : expected XMP_PLAYER_VOLUME (exec State.init [] demoHistory).2 = some 40 := by decide
+example : expected XMP_PLAYER_MIX (exec State.init [] demoHistory).2 = some DEFAULT_MIX := by decide
+example : expMute 1 (exec State.init [] demoHistory).2 = 1 ∧ expVol 2 (exec State.init [] demoHistory).2 = 33
+    ∧ expVol 3 (exec State.init [] demoHistory).2 = 100 := by decide
 
 end Xmp.Api
